@@ -282,7 +282,13 @@ type c13Target struct {
 
 // quiesce waits until the server has no serveConn goroutine and reports the ledger.
 func (t *c13Target) quiesce() (rep *spyfs.Report, serveConn int, err error) {
+	// A leak is a state that no longer changes: the wait is extended while the server is still
+	// performing file-system operations for the connection that ended (a transfer fed by 1-byte
+	// reads may take seconds on a loaded machine), up to a hard cap after which "still busy for a
+	// client that left a minute ago" is itself the violation (a handler that spins for ever).
 	deadline := time.Now().Add(3 * time.Second)
+	hardCap := time.Now().Add(60 * time.Second)
+	lastOps := -1
 	for {
 		g, e := t.p.Do(worker.Cmd{Cmd: "goroutines"})
 		if e != nil {
@@ -292,7 +298,17 @@ func (t *c13Target) quiesce() (rep *spyfs.Report, serveConn int, err error) {
 		if e != nil {
 			return nil, 0, e
 		}
-		if (g.ServeConn == 0 && len(r.Report.Open) == 0) || time.Now().After(deadline) {
+		if g.ServeConn == 0 && len(r.Report.Open) == 0 {
+			return r.Report, g.ServeConn, nil
+		}
+		now := time.Now()
+		if r.Report.Ops != lastOps {
+			lastOps = r.Report.Ops
+			if d := now.Add(3 * time.Second); d.After(deadline) {
+				deadline = d
+			}
+		}
+		if now.After(deadline) || now.After(hardCap) {
 			return r.Report, g.ServeConn, nil
 		}
 		time.Sleep(5 * time.Millisecond)
